@@ -1,12 +1,12 @@
 #!/usr/bin/env python3
 """Random protocol-script generator used to compare the harness with the model driver.
 
-usage: gen.py SEED NCASES [kinds]      (kinds: any of t b z, default "tbz")
+usage: gen.py SEED NCASES [kinds]      (kinds: any of t p b z u, default "tbz")
 
 Only generates lines both sides support (see PROTOCOL.md and the harness' design notes):
-  * kind b: no faults, eq/cmp only with M == N, no to_vec / boxed (model reports 0 allocations)
-  * kind z: capacity-proportional operations only for small N; no extend_from_slice and
-    only zero values for the "other" buffers / slices (the model attaches values to them)
+  * kinds b, u: no faults (the model ticks clone/eq faults for them), eq/cmp only with M == N
+  * kinds z, u: capacity-proportional operations only for small N
+  * kind u: only the value 0, no hash / to_vec / extend_from_slice or `*_mut` (the model treats u like b)
   * at most one fault per line (two could abort the process through a double panic)
 """
 import random
@@ -27,12 +27,12 @@ def main():
     out = []
     for _ in range(ncases):
         kind = rnd.choice(kinds)
-        if kind == "t":
+        if kind in "tp":
             n = rnd.choice(T_N if rnd.random() < 0.3 else [0, 1, 2, 3, 4, 5])
         elif kind == "b":
             n = rnd.choice(B_N if rnd.random() < 0.3 else [0, 1, 2, 3, 4, 5])
         else:
-            n = rnd.choice(Z_N)
+            n = rnd.choice(Z_N)   # kinds z and u
         out.append(f"case {n} {kind}")
         gen_case(rnd, out, n, kind)
     sys.stdout.write("\n".join(out) + "\n")
@@ -65,7 +65,7 @@ def script(rnd, alphabet):
     return "".join(rnd.choice(alphabet) for _ in range(ln))
 
 
-ZERO_VALS = False
+ZERO_VALS = False   # kind u: the model (= kind b) would store the values
 
 
 def vals(rnd, n, lo=0):
@@ -76,24 +76,21 @@ def vals(rnd, n, lo=0):
 
 def gen_case(rnd, out, n, kind):
     global ZERO_VALS
-    ZERO_VALS = kind == "z"   # the model keeps the values of silent source elements of kind z
+    ZERO_VALS = kind == "u"
     small = min(n, 70)
     huge = n > 4096
     nops = rnd.randint(3, 40)
     # start most cases with some content and often a rotated layout
     if rnd.random() < 0.7:
         for _ in range(rnd.randint(0, small + 1)):
-            out.append(f"push_back {rnd.choice([rnd.randint(0, 3), rnd.randint(0, 99)])}")
+            out.append(f"push_back {0 if ZERO_VALS else rnd.choice([rnd.randint(0, 3), rnd.randint(0, 99)])}")
             if rnd.random() < 0.4:
                 out.append("pop_front")
     for _ in range(nops):
         line = gen_op(rnd, n, kind, small, huge)
         if line is None:
             continue
-        # DISCREPANCIES.md #1: after a panicking from_iter / into_iter the model keeps the `start` of the
-        # consumed buffer; only generate such faults where `start` is 0 anyway
-        risky = line.startswith(("from_iter", "into_iter")) and n > 1
-        if kind != "b" and not risky and rnd.random() < 0.2:
+        if kind not in "bu" and rnd.random() < 0.2:
             f = rnd.choice(["drop", "drop", "clone", "call", "next", "eq"])
             # half of the time pick a fault that the operation can actually reach
             name = line.split(" ")[0]
@@ -116,21 +113,23 @@ def gen_op(rnd, n, kind, small, huge):
         "as_slices", "as_mut_slices", "iter", "iter_mut", "range", "range_mut", "iter_default", "drain",
         "drain", "into_iter", "clone", "clone_from", "to_vec", "from_array", "from_iter", "eq", "cmp",
         "eq_slice", "hash", "debug", "write", "read", "fill_buf", "consume", "flush", "boxed", "junk",
-        "drop", "len", "rot",
+        "drop", "len", "rot", "fill_all_slot",
     ]
     op = rnd.choice(ops)
-    if op == "rot":
+    if op == "rot" or (op == "fill_all_slot" and kind != "u"):
         return None
-    if kind == "b" and op in ("to_vec", "boxed"):
-        return None   # DISCREPANCIES.md #2: the model reports no allocations for kind b
-    if kind == "z" and op == "extend_from_slice":
-        return None   # the model gives the source elements of kind z the values 70, 71, …
+    if kind == "u" and (op.endswith("_mut") or op in ("as_mut_slices", "hash", "to_vec", "extend_from_slice")):
+        return None   # model = kind b: hashes/allocates/stores values; `()` does none of that
+    if kind == "u" and op == "fill_all_slot":
+        op = "fill_all"
     if kind != "b" and op in ("write", "read", "fill_buf", "consume", "flush"):
         return None
     if huge and op in ("fill", "fill_spare", "fill_with", "fill_spare_with"):
         return None
+    if op == "fill_all":
+        return None if huge else "fill_all"   # huge full buffers: see edge_u.txt
     if op in ("push_back", "push_front", "try_push_back", "try_push_front", "fill", "fill_spare"):
-        return f"{op} {rnd.choice([rnd.randint(0, 3), rnd.randint(0, 99)])}"
+        return f"{op} {0 if ZERO_VALS else rnd.choice([rnd.randint(0, 3), rnd.randint(0, 99)])}"
     if op in ("pop_back", "pop_front", "clear", "fill_with", "fill_spare_with", "make_contiguous", "front",
               "back", "front_mut", "back_mut", "as_slices", "as_mut_slices", "iter_default", "clone", "to_vec",
               "hash", "debug", "fill_buf", "flush", "boxed", "drop", "len"):
@@ -154,12 +153,12 @@ def gen_op(rnd, n, kind, small, huge):
     if op == "clone_from":
         return "clone_from " + " ".join([str(rnd.randint(0, small + 2))] + vals(rnd, n))
     if op == "from_array":
-        if kind != "t" or n > 5:
+        if kind not in "tp" or n > 5:
             return None
         cnt = rnd.randint(0, 11)
         return " ".join(["from_array"] + [str(rnd.randint(0, 9)) for _ in range(cnt)])
     if op in ("eq", "cmp"):
-        if kind == "t" and n <= 5 and rnd.random() < 0.7:
+        if kind in "tp" and n <= 5 and rnd.random() < 0.7:
             m = rnd.randint(0, 5)
         else:
             m = n
